@@ -993,7 +993,7 @@ fn main() {
 fn run(ctx: &mut Ctx) {
     let quick = ctx.quick();
     let mut rng = ctx.rng(1);
-    let mut g = Gen { ctx, iso: Isolated::new(Duration::from_secs(30)), pending: Vec::new() };
+    let mut g = Gen { ctx, iso: Isolated::new(Duration::from_secs(60)), pending: Vec::new() };
 
     let commands: Vec<Token> = COMMANDS.iter().map(|s| tok(s)).collect();
     let non_commands: Vec<Token> = NON_COMMANDS.iter().map(|s| tok(s)).collect();
@@ -1140,7 +1140,7 @@ fn run(ctx: &mut Ctx) {
         g.text("odd", &t);
     }
     // (x) very long tokens and very many instructions
-    let long = if quick { 20_000 } else { 200_000 };
+    let long = if quick { 6_000 } else { 200_000 };
     for (expected, t) in [
         ("ok", format!("{} 0", "G".repeat(long))),
         ("ok", format!("X {}", "q".repeat(long))),
@@ -1154,7 +1154,9 @@ fn run(ctx: &mut Ctx) {
         ("ok", format!("MOVE ro 0x{}1", "0".repeat(long))),
         ("ok", format!("JUMP @{}", "l-".repeat(long / 2) + "l")),
         ("ok", format!("RX(%{}) 0", "v".repeat(long))),
-        ("ok", format!("RX({}1) 0", "1+".repeat(long / 2))),
+        // a flat sum: parsed iteratively, but printed / debug-printed / dropped recursively — above
+        // about 50 000 terms this is the known finding C01/deep-expression-drop (thorough only)
+        ("ok", format!("RX({}1) 0", "1+".repeat(if quick { 4_000 } else { 60_000 }))),
         ("ok", format!("X 0{}", ";X 0".repeat(long / 4))),
         ("ok", format!("X{}", " 0".repeat(long / 2))),
         ("ok", format!("DEFCAL X 0:{}", "\n\tNOP".repeat(long / 5))),
@@ -1162,9 +1164,16 @@ fn run(ctx: &mut Ctx) {
         ("ok", format!("PRAGMA a{}", " b 1".repeat(long / 4))),
         ("ok", format!("CALL f{}", " 1 a[0] -2i".repeat(long / 10))),
         ("ok", format!("DELAY{} 1", " 0".repeat(long / 2))),
-        ("err", format!("DELAY{}", " q".repeat(long / 20))),
+        // every qubit but the last is given back one by one until the last `q` reads as the duration
+        ("ok", format!("DELAY{}", " q".repeat(long / 20))),
+        ("err", format!("DELAY{} \"f\"", " q".repeat(long / 20))),
         ("ok", format!("{}X 0", "\n".repeat(long))),
-        ("ok", format!("{}X 0", " ".repeat(long))),
+        // leading blanks are indentation tokens, which no instruction may start with
+        ("err", format!("{}X 0", " ".repeat(long))),
+        // … and four or more trailing blanks lex as indentation tokens too: a parse error (an
+        // observation, not a C01 matter: `X 0    ` is rejected, `X 0   ` is accepted)
+        ("err", format!("X 0{}", " ".repeat(long))),
+        ("ok", format!("X 0{}", "\n".repeat(long))),
         ("err", format!("{}$", "X 0\n".repeat(long / 4))),
         ("err", format!("{}\u{e9}", "a".repeat(long))),
         ("err", format!("\"{}", "a\u{416}".repeat(long / 3))),
@@ -1217,7 +1226,7 @@ fn run(ctx: &mut Ctx) {
         });
     }
     //   command head + random tails over the full alphabet, length 5..8
-    let n_random_head = if quick { 5_000 } else { 500_000 };
+    let n_random_head = if quick { 3_000 } else { 500_000 };
     for _ in 0..n_random_head {
         let len = 4 + rng.below(4) as usize;
         let mut v = vec![rng.pick(&heads).clone()];
@@ -1238,7 +1247,7 @@ fn run(ctx: &mut Ctx) {
 
     // (2b) grammar-derived valid programs covering every instruction kind, and mutations of them
     let alpha = Alpha::small();
-    let n_valid = if quick { 600 } else { 60_000 };
+    let n_valid = if quick { 450 } else { 60_000 };
     let n_mut = if quick { 4 } else { 8 };
     for k in 0..n_valid {
         let count = 1 + rng.below(3);
